@@ -44,6 +44,23 @@ class _Opt:
         self.calls.append("update")
 
 
+class _OptMove(_Opt):
+    """an optimiser step that moves every weight somewhere else: `make(name, shape)` supplies the post-step values"""
+
+    def __init__(self, lr, names, make, after=None):
+        super().__init__(lr)
+        self.names, self.make, self.after = names, make, after
+
+    def update_params(self, params, grads):
+        self.calls.append("update")
+        for nm, w in zip(self.names, params):
+            new = self.make(nm.rstrip("_") + "n", w.shape)
+            for idx in np.ndindex(w.shape):
+                w[idx] = new[idx]
+        if self.after:
+            self.after()
+
+
 def _key(a):
     return [to_rat(x).key() if not isinstance(x, core.UndefinedValue) else ("undef",) for x in np.asarray(a, dtype=object).reshape(-1)]
 
@@ -141,33 +158,53 @@ def job_inert(family, shape):
     return res
 
 
-def job_wiring(family, shape, groups=None, max_paths=6000, timeout_q=10.0):
+def job_wiring(family, shape, groups=None, max_paths=6000, timeout_q=10.0, revive=None, dynamic=False):
+    """revive=[j,...]: feature j is discarded in the state BEFORE the step (exact zero rows) and the optimiser step moves every
+    weight to a fresh symbolic value: the shrinkage must still be the proximal step of the post-optimiser weights -- nothing may
+    depend on which features were discarded before (in particular not in dynamic mode)."""
     loader.install()
     res = _new()
     box = {}
     b = cm.BASE[family]
 
+    def scope(mdl):
+        # the hierarchical operator's scope (C05): rows / groups whose skip weights are not all zero
+        for g in ([[j] for j in range(mdl.W_skip_.shape[0])] if groups is None else groups):
+            harness.assume(core.sym_sqrt(sum((to_rat(x) * to_rat(x) for j in g for x in mdl.W_skip_[j]), K(0))) > 0)
+
     def setup():
-        mdl, X, params, dm = cm.build_symbolic(family, shape)
+        mdl, X, params, dm = cm.build_symbolic(family, shape, hyper=({"dynamic": True} if dynamic else None))
         mdl.alpha = core.var("alpha", "0+")
         if b == "smlp":
             mdl.M = core.var("M", "0+")
-            # the hierarchical operator's scope (C05): rows / groups whose skip weights are not all zero
-            for g in ([[j] for j in range(mdl.W_skip_.shape[0])] if groups is None else groups):
-                harness.assume(core.sym_sqrt(sum((to_rat(x) * to_rat(x) for j in g for x in mdl.W_skip_[j]), K(0))) > 0)
+            if not revive:
+                scope(mdl)
         mdl.groups_ = groups
-        opt = _Opt(core.var("lr", "+"))
+        if revive:
+            for j in revive:
+                for nm in ("W_", "W_skip_", "W1_"):
+                    if hasattr(mdl, nm):
+                        for idx in range(getattr(mdl, nm).shape[1]):
+                            getattr(mdl, nm)[j, idx] = K(0)
+            opt = _OptMove(core.var("lr", "+"), [nm for nm, _ in params], cm._sym_make, after=(lambda: (box.__setitem__("post", _snap(mdl)), scope(mdl) if b == "smlp" else None)))
+        else:
+            opt = _Opt(core.var("lr", "+"))
         mdl.optimiser_ = opt
         box.update(mdl=mdl, opt=opt)
         return mdl
+
+    def _snap(mdl):
+        return {nm: np.array(getattr(mdl, nm), dtype=object, copy=True) for nm in ("W_", "W_skip_", "W1_") if hasattr(mdl, nm)}
 
     def body(mdl):
         pg = loader.load("sparse._prox_grad")
         weights = mdl._get_weights()
         ids_before = [id(w) for w in weights]
-        pre = {nm: np.array(getattr(mdl, nm), dtype=object, copy=True) for nm in ("W_", "W_skip_", "W1_") if hasattr(mdl, nm)}
+        pre = _snap(mdl)
         grads = [np.zeros(w.shape) for w in weights]
         mdl._update_weights(weights, grads)
+        if revive:
+            pre = box["post"]      # the weights the proximal step is applied to: those the optimiser left
         thr = to_rat(mdl.alpha) * to_rat(box["opt"].learning_rate)
         if b == "smlp":
             if groups is None:
@@ -181,7 +218,7 @@ def job_wiring(family, shape, groups=None, max_paths=6000, timeout_q=10.0):
         return pre, exp, inplace
 
     ex = Explorer(max_paths=max_paths)
-    gname = "rows" if groups is None else "groups" + str(groups).replace(" ", "")
+    gname = ("rows" if groups is None else "groups" + str(groups).replace(" ", "")) + (f"/revive{revive}{'/dynamic' if dynamic else ''}" if revive else "")
     seen = set()
     for out, pc, trace in ex.run(body, setup):
         res["paths"] += 1
@@ -205,7 +242,7 @@ def job_wiring(family, shape, groups=None, max_paths=6000, timeout_q=10.0):
                     res["queries"] += 1
                     if o["verdict"] != "unsat":
                         res["obligations"].append({k: v for k, v in o.items() if k != "model"})
-                        rep = {"kind": "wiring", "family": family, "shape": list(shape), "groups": groups, "model": {k: str(x) for k, x in (o.get("model") or {}).items() if "!" not in k}}
+                        rep = {"kind": "wiring", "family": family, "shape": list(shape), "groups": groups, "revive": revive, "dynamic": dynamic, "model": {k: str(x) for k, x in (o.get("model") or {}).items() if "!" not in k}}
                         sig = f"{PROP}:{family}:wiring"
                         if o["verdict"] == "sat" and o.get("model") and replay(rep):
                             if sig not in seen:
@@ -228,7 +265,7 @@ def job_wiring(family, shape, groups=None, max_paths=6000, timeout_q=10.0):
                     res["obligations"].append({"name": f"{tag}/zero skip rows {g} => zero first-layer rows", "verdict": "unsat" if okh else "sat", "how": "normal-form"})
                     if not okh and f"{PROP}:{family}:hierarchy" not in seen:
                         v, model = harness.reachable(pc, timeout_s=8.0)
-                        rep = {"kind": "wiring", "family": family, "shape": list(shape), "groups": groups, "hier": True, "model": {k: str(x) for k, x in (model or {}).items() if "!" not in k}}
+                        rep = {"kind": "wiring", "family": family, "shape": list(shape), "groups": groups, "hier": True, "revive": revive, "dynamic": dynamic, "model": {k: str(x) for k, x in (model or {}).items() if "!" not in k}}
                         if v == "sat" and replay(rep):
                             seen.add(f"{PROP}:{family}:hierarchy")
                             res["violations"].append({"signature": f"{PROP}:{family}:hierarchy", "what": f"{family}: after an update a feature with zero skip weights keeps non-zero first-layer weights", "replay": rep})
@@ -240,6 +277,19 @@ def job_wiring(family, shape, groups=None, max_paths=6000, timeout_q=10.0):
                 if not allzero:
                     okg = all((all(to_rat(x).c == 0 for x in W[j])) == (all(to_rat(x).c == 0 for x in P0[j])) for j in g)
                     res["obligations"].append({"name": f"{tag}/group {g} thresholded as a whole", "verdict": "unsat" if okg else "sat", "how": "normal-form"})
+                    if not okg and f"{PROP}:{family}:group-split" not in seen:
+                        v, model = harness.reachable(pc, timeout_s=8.0)
+                        res["queries"] += 1
+                        rep = {"kind": "wiring", "family": family, "shape": list(shape), "groups": groups, "whole": list(g),
+                               "model": {k: str(x) for k, x in (model or {}).items() if "!" not in k}}
+                        if v == "sat" and replay(rep):
+                            seen.add(f"{PROP}:{family}:group-split")
+                            res["violations"].append({"signature": f"{PROP}:{family}:group-split",
+                                                      "what": f"{family}: after an update the declared group {g} is split (some of its features discarded, others kept)", "replay": rep})
+                        elif v == "unsat":
+                            res["obligations"][-1]["verdict"] = "unsat"
+                        else:
+                            res["obligations"][-1]["verdict"] = "inconclusive"
         if len(res["samples"]) < 1:
             res["samples"].append({"obligation": tag, "pc_size": len(pc)})
     if ex.truncated:
@@ -319,9 +369,25 @@ def replay(rep, verbose=False):
             mdl.groups_ = rep.get("groups")
             mdl.learning_rate = 0.123           # the constructor value must not be what is used
             mdl.optimiser_ = _Opt(lr)
+            if rep.get("revive"):
+                mdl.dynamic = bool(rep.get("dynamic"))
+                for j in rep["revive"]:
+                    for nm in ("W_", "W_skip_", "W1_"):
+                        if hasattr(mdl, nm):
+                            getattr(mdl, nm)[j, :] = 0.0
+                rng2 = np.random.default_rng(5 + attempt)
+
+                def make(name, shp, model=model, rng2=rng2):
+                    a = cm._float_make(model)(name, shp)
+                    return a + rng2.normal(size=shp) * (a == 0)
+                mdl.optimiser_ = _OptMove(lr, [nm for nm, _ in params], make)
             pre = {nm: np.array(getattr(mdl, nm), copy=True) for nm in ("W_", "W_skip_", "W1_") if hasattr(mdl, nm)}
             ws = mdl._get_weights()
             with np.errstate(all="ignore"):
+                if rep.get("revive"):
+                    # the post-optimiser weights are what the proximal step sees: capture them as the step hands them over
+                    opt = mdl.optimiser_
+                    opt.after = lambda: pre.update({nm: np.array(getattr(mdl, nm), copy=True) for nm in pre})
                 mdl._update_weights(ws, [np.zeros(w.shape) for w in ws])
                 thr = alpha * lr
                 if cm.BASE[family] == "smlp":
@@ -333,6 +399,16 @@ def replay(rep, verbose=False):
                 else:
                     e = pg.linear_prox_grad(pre["W_"], thr) if rep.get("groups") is None else pg.group_linear_prox_grad(rep["groups"], pre["W_"], thr)
                     bad = not np.allclose(mdl.W_, e, rtol=1e-9, atol=1e-12)
+                if rep.get("hier") and cm.BASE[family] == "smlp":
+                    bad = bad or any((not np.any(mdl.W_skip_[j] != 0)) and np.any(mdl.W1_[j] != 0) for j in range(mdl.W_skip_.shape[0]))
+                if rep.get("whole") is not None:
+                    # group wholeness on the REAL post-state: the rows of the group that are zero now but were not before,
+                    # while some other row of the group survives
+                    nm = _sel_attr(family)
+                    post, pr = getattr(mdl, nm), pre[nm]
+                    g = rep["whole"]
+                    zero_now = [j for j in g if not np.any(post[j] != 0)]
+                    bad = 0 < len(zero_now) < len(g) and any(np.any(pr[j] != 0) for j in zero_now)
             if verbose:
                 print(f"alpha={alpha} lr={lr} M={M} groups={rep.get('groups')} -> {'MISMATCH with the proximal step' if bad else 'ok'}")
             if bad:
@@ -348,11 +424,17 @@ def jobs(tier):
     for fam, sh in [("SparseLinearModel", (2, 2, 2)), ("SparseMLPModel", (2, 2, 1, 2)), ("SparseMLPMMD", (1, 2, 2, 2))] + ([] if q else [("SparseLinearMMD", (2, 3, 2)), ("SparseMLPModel", (2, 3, 2, 2))]):
         out.append({"name": f"inert/{fam}/{cm.shape_str(sh)}", "target": "checks.c06:job_inert", "kwargs": dict(family=fam, shape=sh), "timeout": 280 if q else 1800})
     wir = [("SparseLinearModel", (1, 2, 1), None), ("SparseLinearModel", (1, 2, 2), None), ("SparseLinearModel", (1, 2, 1), [[0, 1]]), ("SparseLinearModel", (1, 3, 1), [[0, 2], [1]]),
+           ("SparseLinearModel", (1, 3, 1), [[1, 2], [0]]),
            ("SparseMLPModel", (1, 1, 1, 1), None), ("SparseMLPModel", (1, 2, 1, 1), None), ("SparseMLPModel", (1, 1, 2, 1), None), ("SparseMLPModel", (1, 2, 1, 1), [[0], [1]])]
     if not q:
         wir += [("SparseLinearModel", (1, 3, 2), [[0], [1, 2]]), ("SparseMLPModel", (1, 2, 1, 1), [[0, 1]]), ("SparseMLPModel", (1, 1, 1, 2), None), ("SparseLinearMI", (1, 2, 2), [[0, 1]])]
     for fam, sh, g in wir:
         out.append({"name": f"wiring/{fam}/{cm.shape_str(sh)}/{g}", "target": "checks.c06:job_wiring", "kwargs": dict(family=fam, shape=sh, groups=g), "timeout": 280 if q else 2400})
+    # a feature discarded before the step, then moved by the optimiser: static and dynamic mode
+    for fam, sh in [("SparseMLPModel", (1, 2, 1, 1)), ("SparseLinearModel", (1, 2, 2))] + ([] if q else [("SparseMLPModel", (1, 2, 1, 2)), ("SparseMLPModel", (1, 2, 2, 1))]):
+        for dyn in (False, True):
+            out.append({"name": f"wiring/{fam}/{cm.shape_str(sh)}/revive/{'dynamic' if dyn else 'static'}", "target": "checks.c06:job_wiring",
+                        "kwargs": dict(family=fam, shape=sh, revive=[1], dynamic=dyn), "timeout": 280 if q else 2400})
     for d in ([2, 3] if q else [2, 3, 4]):
         out.append({"name": f"check_groups/d{d}", "target": "checks.c06:job_check_groups", "kwargs": dict(d=d), "timeout": 120})
     return out
